@@ -135,6 +135,17 @@ class Duration(timedelta):
         self._months = months
         self._years = years
 
+        sub_second = microseconds + milliseconds * 1000
+        if isinstance(sub_second, float) and all(
+            isinstance(value, int) for value in (weeks, days, hours, minutes, seconds)
+        ):
+            # Keep what the constructor rounded the fractional microseconds to,
+            # so that replaying the signature (pickle, copy, dt + duration)
+            # gives this very duration and not one that is rounded differently
+            sub_second = total_us - (
+                ((weeks * 7 + days) * 24 + hours) * 3600 + minutes * 60 + seconds
+            ) * US_PER_SECOND
+
         self._signature = {  # type: ignore[attr-defined]
             "years": years,
             "months": months,
@@ -143,7 +154,7 @@ class Duration(timedelta):
             "hours": hours,
             "minutes": minutes,
             "seconds": seconds,
-            "microseconds": microseconds + milliseconds * 1000,
+            "microseconds": sub_second,
         }
 
         return self
